@@ -7,6 +7,7 @@ CONSTANTS
   ArmAt = "commit"
   Upfront = TRUE
   SplitStart = FALSE
+  Cap <- CapAll
 INIT GInit
 NEXT GNext
 CONSTRAINT QBound
